@@ -48,7 +48,7 @@ def install():
                 lab = rec.handler_label.get((id(self), id(handler)))
                 if lab is not None:
                     rec.exec_owner[(self.name, rec.eid(event), lab)] = rec.par_owner.get((self.name, rec.eid(event)), '?')
-                    if not (hasattr(handler, '__self__') and isinstance(handler.__self__, S.EventBus)):
+                    if not (hasattr(handler, '__self__') and isinstance(handler.__self__, S.EventBus)) and '.expect(' not in getattr(handler, '__name__', ''):
                         # activations are numbered when execute_handler is entered (the model numbers them when the handler task is created)
                         rec.nact += 1
                         rec.pre_act[(self.name, rec.eid(event), lab)] = rec.nact
@@ -87,6 +87,20 @@ def install():
 
     if not _wrap(S.EventBus, 'process_event', mk_proc):
         missing.append('EventBus.process_event')
+
+    def mk_on(orig):
+        @functools.wraps(orig)
+        def on(self, event_pattern, handler):
+            r = orig(self, event_pattern, handler)
+            rec = _rec()
+            if rec is not None and getattr(rec, 'cur_expect', None) and '.expect(' in getattr(handler, '__name__', ''):
+                rec.handler_label[(id(self), id(handler))] = 'x%d' % rec.cur_expect
+                rec.keep.append(handler)
+            return r
+        return on
+
+    if not _wrap(S.EventBus, 'on', mk_on):
+        missing.append('EventBus.on')
 
     def mk_wal(orig):
         @functools.wraps(orig)
